@@ -95,3 +95,4 @@ _p("C04", assumptions=COMMON_VERUS_ASSUMPTIONS + COMMON_KANI_ASSUMPTIONS, not_co
 _p("C20", assumptions=COMMON_KANI_ASSUMPTIONS, not_covered=[])
 _p("C12", assumptions=COMMON_KANI_ASSUMPTIONS, not_covered=[])
 _p("C02", assumptions=COMMON_KANI_ASSUMPTIONS, not_covered=[])
+_p("C08", assumptions=COMMON_KANI_ASSUMPTIONS, not_covered=[])
